@@ -49,7 +49,7 @@ class Prop:
     def sequences(self, ctx):
         rng = ctx.rng('c07')
         seqs = list(fixture_lines())
-        for i in range(150 if ctx.tier == 'quick' else 2000):
+        for i in range(150 if ctx.tier == 'quick' else 10000):
             parts = []
             for _ in range(rng.randint(2, 7)):
                 r = rng.random()
@@ -102,7 +102,7 @@ class Prop:
         # slot histories: several fragment sets one after the other in ONE (sequence id, channel) slot, some of
         # them incomplete (the receiver missed fragments), so that leftovers of earlier sets are still around when a
         # later set of another size arrives; all front-ends must agree on every later delivery
-        for i in range(200 if ctx.tier == 'quick' else 3000):
+        for i in range(200 if ctx.tier == 'quick' else 15000):
             seq, chan = rng.choice(['1', '0', '', '7']), rng.choice('AB')
             lines = []
             for _ in range(rng.randint(2, 4)):
